@@ -680,21 +680,41 @@ def check_core_scope_semantics(col, rule: str, repo: Repo):
 # flags incl. O_TRUNC)); <path>.write_text(.render(info)).
 def check_copy_template(col, rule: str, repo, details=("renders-that-template-into-that-file", "output-file-replaced-not-overlaid", None)):
     ex = repo.find_class("executor", hint="common.executor")
-    if ex.methods.get("_copy_template_file") is None:
-        raise AnalysisError("executor._copy_template_file not found")
+    sites = 0
     # the base method and every override a backend executor may add are held to the same contract
     for k in [ex] + list(repo.subclasses(ex)):
         cp = k.methods.get("_copy_template_file")
         if cp is not None:
-            _check_one_copy_template(col, rule, repo, cp, details)
+            prm = [a.arg for a in cp.node.args.args]
+            if len(prm) != 5:
+                raise AnalysisError(f"_copy_template_file parameters are {prm}: expected (self, env, info, template_file, final_dir)")
+            _check_one_copy_template(col, rule, repo, cp, details, tuple(prm[1:]))
+            sites += 1
+    if ex.methods.get("_copy_template_file") is None:
+        # the rendering may be written in line where the base method was called ("inline method"): the same contract, with the roles read off
+        # the site: <env>.get_template(<file>) .stream/.render(<info>) written to <dir>/<file>, inside the loop over the file names
+        wf = ex.methods.get("write_cpp_files")
+        gets = [c for c in ast.walk(wf.node) if isinstance(c, ast.Call) and call_name(c) == "get_template"] if wf is not None else []
+        rend = [c for c in ast.walk(wf.node) if isinstance(c, ast.Call) and call_name(c) in ("stream", "render", "generate")] if wf is not None else []
+        if len(gets) != 1 or len(rend) != 1 or len(gets[0].args) != 1 or len(rend[0].args) != 1:
+            raise AnalysisError("executor._copy_template_file not found (and no single in-line rendering site in write_cpp_files)")
+        tf = src(gets[0].args[0])
+        paths = [n for n in ast.walk(wf.node) if isinstance(n, ast.BinOp) and isinstance(n.op, ast.Div) and src(n.right) == tf]
+        fdir = src(paths[0].left) if len(paths) == 1 else "?"
+        _check_one_copy_template(col, rule, repo, wf, details, (src(gets[0].func.value), src(rend[0].args[0]), tf, fdir), construct="executor._copy_template_file")
+        sites += 1
+    return sites
 
 
-def _check_one_copy_template(col, rule: str, repo, cp, details):
-    prm = [a.arg for a in cp.node.args.args]
-    if len(prm) != 5:
-        raise AnalysisError(f"_copy_template_file parameters are {prm}: expected (self, env, info, template_file, final_dir)")
-    _, env, info, tf, fdir = prm
+def _check_one_copy_template(col, rule: str, repo, cp, details, roles, construct=None):
+    env, info, tf, fdir = roles
     fn = cp.node
+    if construct is not None:
+        class _Short:              # reported under the name of the contract, located at the site
+            short = construct
+            loc = cp.loc
+            node = cp.node
+        cp = _Short()
     sp = lambda n: src(n).replace(" ", "").replace("\n", "")
 
     def is_path(e, depth=0):
@@ -710,7 +730,11 @@ def _check_one_copy_template(col, rule: str, repo, cp, details):
     tmpl_ok = len(gets) == 1 and src(gets[0].func.value) == env and len(gets[0].args) == 1 and src(gets[0].args[0]) == tf
     rend = [c for c in ast.walk(fn) if isinstance(c, ast.Call) and call_name(c) in ("stream", "render", "generate")]
     rend_ok = len(rend) == 1 and [src(a) for a in rend[0].args] == [info] and not rend[0].keywords
-    caches = [n for n in ast.walk(fn) if isinstance(n, ast.Subscript)] + [c for c in ast.walk(fn) if isinstance(c, ast.Call) and call_name(c) in ("get", "setdefault", "lru_cache", "cache")]
+    if construct is None:
+        caches = [n for n in ast.walk(fn) if isinstance(n, ast.Subscript)] + [c for c in ast.walk(fn) if isinstance(c, ast.Call) and call_name(c) in ("get", "setdefault", "lru_cache", "cache")]
+    else:
+        # in-line site: the template object must come straight from get_template (no table between the environment and the rendering)
+        caches = [] if (isinstance(rend[0].func, ast.Attribute) and strip_cast(resolve_name(fn, rend[0].func.value)) is gets[0]) or not rend else [rend[0]]
 
     def enc_of(call, pos_enc, default):
         """(encoding, errors) of an open/dump call; default encoding None = locale dependent"""
